@@ -26,6 +26,7 @@ def root_link_style(st: str, ri: int) -> str:
 
 class C10(Check):
     PROP = "C10"
+    CRASH_ORACLE = "C10.complete"
     CROSS_SEED = True
     RULE = ("each run = one generated workspace (1-3 roots, nested namespaces, version families, cross-root references, "
             "stray files) x several logical reads (read_namespace per root, read_files on target subsets, directory-set "
